@@ -186,7 +186,7 @@ impl Group for Overlap {
         "c05.overlap"
     }
     fn rule(&self) -> &'static str {
-        "one page with a vary rule on x-lang; k variants are cached, then a request for a new variant is started whose handler waits; meanwhile the page is cleared and requested again by j other variants (a new, shorter or longer entry); the handler is released; oracle: the waiting request is answered with its own variant (no panic in its task), every variant requested afterwards gets its own body, and — when variants were cached beforehand and nothing was cleared — every class was computed exactly once (a variant that joined the entry during the overlap is not lost when the waiting one joins); the number of handler runs per class is compared with the model's run of the same looks, finishes and clears (`VaryConc.run`, incl. the first request on an uncached page that replaces what was stored meanwhile); non-trivial = always"
+        "one page with a vary rule on x-lang; k variants are cached, then a request for a new variant is started whose handler waits; meanwhile the page is cleared and requested again by j other variants (a new, shorter or longer entry); the handler is released; oracle: the waiting request is answered with its own variant (no panic in its task), every variant requested afterwards gets its own body, and — when nothing was cleared — every class was computed exactly once, also when the overlapping requests were the first ones for the page (a variant that joined the entry during the overlap is not lost when the waiting one joins); the number of handler runs per class is compared with the model's run of the same looks, finishes and clears (`VaryConc.run`, incl. the first request on an uncached page that replaces what was stored meanwhile); non-trivial = always"
     }
     fn parallel(&self) -> bool {
         false
@@ -279,9 +279,10 @@ impl Group for Overlap {
             if o != format!("variant {l}") { problems.push(format!("afterwards {l} got `{o}`")); }
         }
         rt.shutdown_background();
-        // one computation per class while the page stays cached: with variants cached beforehand and no clear, the
-        // entry exists throughout, every overlapping miss joins it, and nothing that joined may be lost again
-        if k >= 1 && !clear {
+        // one computation per class while the page stays cached: without a clear every overlapping request — also the
+        // first ones, which found the page uncached — joins what is stored when it finishes, and nothing that joined may be
+        // lost again (F47)
+        if !clear {
             for (l, n) in OVERLAP_COUNTS.lock().unwrap().iter() {
                 if *n != 1 { problems.push(format!("class {l} was computed {n} times although the page stayed cached")); }
             }
